@@ -201,8 +201,11 @@ def _F_linear(E, input, weight, bias=None):
 
 def _F_unmodelled(name):
     def f(E, *a, **k):
-        from .tm_tensor import uninterpreted_function_result
+        from .tm_tensor import call_aten, collect_wrappers, uninterpreted_function_result
 
+        if collect_wrappers([list(a), k], []):
+            # torch-function dispatch was declined: the composite reaches the aten op with the tensor subclass (-> __torch_dispatch__)
+            return call_aten(E, AtenOp(name), list(a), dict(k))
         return uninterpreted_function_result(E, name, a, k)
     return f
 
